@@ -168,6 +168,8 @@ def grouping(ctx) -> None:
         if n.kind == "stmt" and isinstance(n.ast, ast.Assign) and isinstance(n.ast.value, ast.ListComp):
             lc = n.ast.value
             it = lc.generators[0].iter
+            if isinstance(it, ast.Name):
+                it = fv.def_expr(it, n.id)[0]  # the sorted keys held in a (single-definition) local
             if isinstance(it, ast.Call) and call_fname(it) == "sorted" and not it.keywords and not lc.generators[0].ifs and isinstance(lc.elt, ast.Subscript):
                 src = it.args[0]
                 is_keys = (isinstance(src, ast.Call) and call_fname(src) == "keys") or isinstance(src, ast.Name)
@@ -464,6 +466,12 @@ def _eval(e: ast.AST, env: dict):
         return _eval(e.body, env) if _eval(e.test, env) else _eval(e.orelse, env)
     if isinstance(e, ast.Call) and isinstance(e.func, ast.Name) and e.func.id in ("frozenset", "set", "tuple", "list") and len(e.args) == 1 and not e.keywords:
         return list(_eval(e.args[0], env))
+    if isinstance(e, ast.Call) and isinstance(e.func, ast.Attribute) and e.func.attr in ("lower", "upper", "strip", "casefold", "lstrip", "rstrip", "title", "capitalize") and not e.args and not e.keywords:
+        base = _eval(e.func.value, env)
+        if isinstance(base, str):
+            return getattr(base, e.func.attr)()
+    if isinstance(e, ast.Call) and isinstance(e.func, ast.Name) and e.func.id == "str" and len(e.args) == 1 and not e.keywords:
+        return str(_eval(e.args[0], env))
     raise _Unknown(ast.unparse(e)[:40])
 
 
@@ -512,7 +520,7 @@ def _run_scenario(fv, env: dict):
 
 def optimize(ctx) -> None:
     """Decision table of optimize_partition_by by evaluating its (loop-free) CFG over the finite scenario domain
-    mode in {auto, source, destination, <other>} x source trough? x destination trough?  (16 scenarios)."""
+    mode in {auto, source, destination, other names incl. differently cased / padded ones} x source trough? x destination trough?."""
     rule = "C18.mode"
     f = ctx.prog.require_func("optimize_partition_by", rule)
     fv = ctx.fv(f)
@@ -520,7 +528,7 @@ def optimize(ctx) -> None:
     table = {}
     explicit_bad = []
     bogus_bad = []
-    for mode in ("auto", "source", "destination", "some other name", ""):
+    for mode in ("auto", "source", "destination", "some other name", "", "Auto", "SOURCE", " destination"):
         for st in (False, True):
             for dt in (False, True):
                 env = {"partition_by": mode, "source.is_trough": st, "destination.is_trough": dt, "label": None,
@@ -575,6 +583,9 @@ def wiring(ctx, dev) -> None:
         ctx.rep.check(t is not None and is_name(t, want), rule, f"{cb}/optimize[{pname}]", f"optimize_partition_by gets transfer's own `{want}`",
                       f"optimize_partition_by receives `{show(t) if t is not None else 'its default'}` as `{pname}` instead of transfer's `{want}` argument"
                       + (": an explicitly chosen mode is ignored (and an invalid one is not rejected)" if pname == "partition_by" else ""), where=w)
+    d = f.param_default("partition_by") if "partition_by" in f.params else None
+    ctx.rep.check(isinstance(d, ast.Constant) and d.value == "auto", rule, cb + "/default", "without an explicit choice the mode is 'auto'",
+                  f"transfer's default for `partition_by` is `{show(d) if d is not None else 'missing'}`: a call that leaves the choice to the library does not get the automatic one", where=f.where())
     pb = (fv.bind_args(parts[0]) or {}).get("partition_by")
     t = fv.res.resolve(pb, parts[0].node) if pb is not None else None
     ok = t is not None and isinstance(t, ast.Call) and call_fname(t) == "optimize_partition_by"
